@@ -4479,13 +4479,16 @@ func (c *linkerContext) convertStmtsForChunk(sourceIndex uint32, stmtList *stmtL
 			}
 
 			if shouldStripExports {
-				// Turn this statement into "import {foo} from 'path'"
+				// Turn this statement into "import {foo} from 'path'". Be careful to
+				// not modify the original items since the AST is shared.
+				items := make([]js_ast.ClauseItem, len(s.Items))
 				for i, item := range s.Items {
-					s.Items[i].Alias = item.OriginalName
+					item.Alias = item.OriginalName
+					items[i] = item
 				}
 				stmt.Data = &js_ast.SImport{
 					NamespaceRef:      s.NamespaceRef,
-					Items:             &s.Items,
+					Items:             &items,
 					ImportRecordIndex: s.ImportRecordIndex,
 					IsSingleLine:      s.IsSingleLine,
 				}
